@@ -226,6 +226,31 @@ func c08Worker(raw json.RawMessage) (res *engine.Result) {
 		cmp(f, "fresh-connection")
 	}
 	f.Close()
+	// the row is modified later without touching the value: a later UPDATE of another column on the writer
+	// (the stored row is re-timed), and a concurrent later UPDATE of that column by a third writer that saw
+	// the row (the value is carried through a cross-writer row merge)
+	w3 := w.NewClient("w3")
+	if err := w3.Create(opts); err != nil {
+		viol("w3-open", "third writer cannot open: %v", err)
+		return res
+	}
+	keyPh, keyArgs := "'k1'", []interface{}(nil)
+	if c.Pos == "key" {
+		keyPh, keyArgs = ph, args
+	}
+	w.SetClock(engine.T(1150))
+	nerr = w1.Exec("update nat set c='x1' where a="+keyPh, keyArgs...)
+	serr = w1.Exec("update {T} set c='x1' where a="+keyPh, keyArgs...)
+	if (nerr == nil) != (serr == nil) {
+		viol("update-other-column", "native %v, s3db %v", nerr, serr)
+	}
+	cmp(w1, "after-update-of-other-column")
+	w.SetClock(engine.T(1250))
+	nerr = w1.Exec("update nat set c='x2' where a="+keyPh, keyArgs...)
+	serr = w3.Exec("update {T} set c='x2' where a="+keyPh, keyArgs...)
+	if (nerr == nil) != (serr == nil) {
+		viol("update-other-column-w3", "native %v, s3db %v", nerr, serr)
+	}
 	// second writer: unrelated row (later time) and a conflicting OLDER insert of the same key that must lose
 	w.SetClock(engine.T(1050)) // older than w1's insert at 1100
 	var ins2 string
